@@ -433,6 +433,11 @@ impl<'k, V> StrMap<'k, V> {
     { unimplemented!() }
 
     #[verifier::external_body]
+    pub fn contains_key(&self, k: &str) -> (r: bool)
+        ensures r == self@.contains_key(k@),
+    { unimplemented!() }
+
+    #[verifier::external_body]
     pub fn insert(&mut self, k: &'k str, v: V) -> (r: Option<V>)
         ensures final(self)@ == old(self)@.insert(k@, v),
     { unimplemented!() }
@@ -605,13 +610,15 @@ impl<'value, 'loc: 'value> RootScope<'value, 'loc> {
         let match_all = query.match_all;
 
         let result = query_retrieval(0, &query.query, self.root(), self)?;
+        let result = if !match_all {
+                        verif_keep_resolved(result)
+        } else {
+            result
+        };
         self.scope
             .resolved_variables
             .insert(variable_name, result.clone());
-        if match_all {
-            return Ok(result);
-        }
-        Ok(            verif_keep_resolved(result))
+        Ok(result)
     }
 }
 // ---- canary canary:pre:resolve_variable
@@ -679,6 +686,69 @@ let verif_loop_value;
 // ---- canary canary:pre:rule_status
 impl<'value, 'loc: 'value> RootScope<'value, 'loc> {
         fn rule_status__canary(&mut self, rule_name: &'value str) -> (res: Result<Status>)
+{ assert(false); vstd::pervasive::unreached() }
+}
+// ---- stub guard/src/rules/eval_context.rs::start_record
+impl<'value> RecordTracker<'value> {
+#[verifier::external_body]
+    fn start_record(&mut self, context: &str) -> (res: Result<()>) { unimplemented!() }
+}
+// ---- canary canary:callee:start_record
+impl<'value> RecordTracker<'value> {
+    fn start_record__canary(&mut self, context: &str) -> (res: Result<()>)
+{ let r = self.start_record(context); assert(false); r }
+}
+// ---- stub guard/src/rules/eval_context.rs::end_record
+impl<'value> RecordTracker<'value> {
+#[verifier::external_body]
+    fn end_record(&mut self, context: &str, record: RecordType<'value>) -> (res: Result<()>) { unimplemented!() }
+}
+// ---- canary canary:callee:end_record
+impl<'value> RecordTracker<'value> {
+    fn end_record__canary(&mut self, context: &str, record: RecordType<'value>) -> (res: Result<()>)
+{ let r = self.end_record(context, record); assert(false); r }
+}
+// ---- fn guard/src/rules/eval_context.rs::start_record
+impl<'value, 'loc: 'value> RootScope<'value, 'loc> {
+    fn start_record(&mut self, context: &str) -> (res: Result<()>)
+    ensures
+        final(self).rules_status == old(self).rules_status,
+        final(self).scope == old(self).scope,
+        final(self).rules == old(self).rules,
+        final(self).parameterized_rules == old(self).parameterized_rules,
+{
+        self.recorder.start_record(context)
+    }
+}
+// ---- canary canary:pre:start_record
+impl<'value, 'loc: 'value> RootScope<'value, 'loc> {
+    fn start_record__canary(&mut self, context: &str) -> (res: Result<()>)
+{ assert(false); vstd::pervasive::unreached() }
+}
+// ---- fn guard/src/rules/eval_context.rs::end_record
+impl<'value, 'loc: 'value> RootScope<'value, 'loc> {
+    fn end_record(&mut self, context: &str, record: RecordType<'value>) -> (res: Result<()>)
+    ensures
+        final(self).rules_status == old(self).rules_status,
+        final(self).scope == old(self).scope,
+        final(self).rules == old(self).rules,
+        final(self).parameterized_rules == old(self).parameterized_rules,
+{
+        
+        
+        
+        
+        if let RecordType::RuleCheck(NamedStatus { name, status, .. }) = &record {
+            if self.rules.contains_key(*name) {
+                self.rules_status.insert(*name, *status);
+            }
+        }
+        self.recorder.end_record(context, record)
+    }
+}
+// ---- canary canary:pre:end_record
+impl<'value, 'loc: 'value> RootScope<'value, 'loc> {
+    fn end_record__canary(&mut self, context: &str, record: RecordType<'value>) -> (res: Result<()>)
 { assert(false); vstd::pervasive::unreached() }
 }
 } // verus!
